@@ -60,6 +60,7 @@ import PercevalModel.Lemmas.C06AnonIdem
 import PercevalModel.Lemmas.C06AnonDistIdem
 import PercevalModel.Lemmas.C06LossW
 import PercevalModel.Lemmas.C06NoTrim
+import PercevalModel.Lemmas.C06Src
 
 namespace PM.C06
 
@@ -1495,5 +1496,74 @@ example : wmin exHOM = 3 / 10 ∧ max (0 : ℚ) minP < wmin exHOM ^ ([1, 1] : Li
   refine ⟨h, ?_⟩
   rw [h]
   norm_num [minP]
+
+/-! ### the `Source` OBJECT across calls (wave 8; model `Model/C06Src.lean`)
+
+`generate_samples` keeps its event table in three attributes of the object (`_prob_table`, `_prob_table_n`,
+`_prob_table_filter`) and reuses it when the photon number and the filter of the request equal the stored ones;
+`cache_prob_table` is public too.  The sampler theorems above speak of `table P n f` for the request at hand; the
+theorems of this section are what entitles them to: after ANY history of public calls on one object the table in use
+is the table of the request. -/
+
+/-- **the cache is coherent after every history**: whatever the tag counter `t` of the context the object was constructed with and whatever calls (`cache_prob_table`, `generate_samples` with or
+without filter, on any route, failing or not, `generate_distribution`, `probability_distribution`) were made on one
+`Source` object, a stored table is the table of the photon number and filter it is filed under (and could be
+computed without dividing by zero). -/
+theorem source_cache_coherent (P : Params) (t : ℕ) (ops : List SrcOp) : (srcAfter P t ops).Coherent P :=
+  coherent_after P t ops
+
+/-- **`generate_samples` does not depend on the history of the object** (any parameters, well-formed or not): the
+route taken and, on the event-table route, the keys and weights handed to `random.choices` are those a NEW object
+would use for the same request. -/
+theorem samples_history_free (P : Params) (t : ℕ) (ops : List SrcOp) (ns : List ℕ) (f : ℕ) :
+    (srcStep P (srcAfter P t ops) (.samples ns f)).2 = samplesFresh P ns f :=
+  samples_step_eq_fresh P _ (coherent_after P t ops) ns f
+
+/-- … and for well-formed parameters this is the route `sampRoute` of the sampler theorems, with the table
+`table P n f` of the request on the event-table route (`sampler_filtered_law`, `sampler_events_route_law`, … are
+statements about exactly this table); in particular `generate_samples` never fails with a division by zero. -/
+theorem samples_route_history_free {P : Params} (hP : P.WF) (t : ℕ) (ops : List SrcOp) (ns : List ℕ) (f : ℕ) :
+    (srcStep P (srcAfter P t ops) (.samples ns f)).2 = routeOut P ns.sum f (sampRoute P ns.sum f) ∧
+    (srcStep P (srcAfter P t ops) (.samples ns f)).2 ≠ .zeroDiv := by
+  have h := (samples_history_free P t ops ns f).trans (samplesFresh_eq_route hP ns f)
+  refine ⟨h, ?_⟩
+  rw [h]
+  cases sampRoute P ns.sum f <;> simp [routeOut]
+
+/-- **the tag counter over histories**: it never falls below its value `t` at construction, no call decreases it; a filtered `generate_samples` leaves it where it was
+(`_events_to_samples` puts it back after every event), an unfiltered one on an imperfect source advances it to
+`nfTag`, `generate_distribution` to `tagAfterGen`. -/
+theorem source_tag_counter (P : Params) (t : ℕ) (ops : List SrcOp) (o : SrcOp) :
+    t ≤ (srcAfter P t ops).tag ∧ (srcAfter P t ops).tag ≤ (srcAfter P t (ops ++ [o])).tag ∧
+    (∀ ns f, o = .samples ns f → f ≠ 0 → (srcAfter P t (ops ++ [o])).tag = (srcAfter P t ops).tag) ∧
+    (∀ ns, o = .samples ns 0 → isPerfect P = false →
+      (srcAfter P t (ops ++ [o])).tag = nfTag P ns (srcAfter P t ops).tag) ∧
+    (∀ ns, o = .dist ns → (srcAfter P t (ops ++ [o])).tag = tagAfterGen P ns (srcAfter P t ops).tag) := by
+  rw [srcAfter_snoc]
+  refine ⟨tag_le_after P t ops, tag_le_step P _ o, ?_, ?_, ?_⟩
+  · rintro ns f rfl hf
+    exact samples_filtered_tag P _ ns f hf
+  · rintro ns rfl hp
+    simp [srcStep, hp]
+  · rintro ns rfl
+    rfl
+
+/-- total loss: the one kind of source for which `cache_prob_table` itself can divide by zero -/
+def exLoss : Params := { beta := 1, g2 := 0, q := 1, eta := 0, ind := 1, r := 1, dm := false }
+
+-- `source_cache_coherent` / `samples_history_free` have no hypotheses.  The `zeroDiv` outcome of the model is not
+-- vacuous: a direct `cache_prob_table(1, 1)` on a source that loses every photon divides 0.0 by 0.0 …
+example : computeFails exLoss 1 1 = true ∧ exLoss.admissible = true := by decide +kernel
+-- … and `samples_route_history_free` (hypothesis `exP_WF`) is about a route that exists: the second of two different
+-- requests on one object gets ITS table (one entry), not the cached one (three entries)
+example : (srcStep exP (srcStep exP Src.init (.samples [1] 1)).1 (.samples [1] 2)).2 = .events (table exP 1 2) ∧
+    (table exP 1 1).length = 3 ∧ (table exP 1 2).length = 1 := by decide +kernel
+-- NECESSITY of the filter in the cache test: with `expected_input.n != _prob_table_n` alone the same two requests
+-- make the second one draw from the table of the first
+example : (samplesStepN exP (samplesStepN exP Src.init [1] 1).1 [1] 2).2 = .events (table exP 1 1) ∧
+    (samplesStepN exP (samplesStepN exP Src.init [1] 1).1 [1] 2).2 ≠ samplesFresh exP [1] 2 := by decide +kernel
+-- the counter really moves on the unfiltered route and not on the filtered one
+example : (srcAfter exP 0 [.samples [1, 2] 0]).tag = 6 ∧ (srcAfter exP 0 [.samples [1, 2] 0, .samples [1, 2] 1]).tag = 6 := by
+  decide +kernel
 
 end PM.C06
